@@ -93,6 +93,22 @@ Theorem wmw_wm_run_accepted : forall summ1 summN p,
   wo_check_log (map wmw_to_wo (wm_run summ1 summN p)) = true.
 Proof. intros summ1 summN p st Hf Hb. rewrite <- wmw_evs_run. apply wmw_run_accepted; assumption. Qed.
 
+(* the log of the run without close is a prefix of the log of the run with close: its crash points are crash points
+   of the closed run *)
+Lemma wmw_open_log_prefix : forall summ1 summN p, exists l2,
+  wmw_evs (wm_st_log (fst (wm_run_full summ1 summN p))) =
+  wmw_evs (wm_st_log (fst (wm_steps summ1 summN wm_api_open p []))) ++ l2.
+Proof.
+  intros summ1 summN p. destruct (wmw_run_pre summ1 summN p) as [_ Heq]. rewrite Heq.
+  set (st1 := fst (wm_steps summ1 summN wm_api_open p [])).
+  destruct (wmw_close_pre_step summ1 summN st1) as [L _]. apply wmw_le_log_ext in L. destruct L as [l Hl].
+  set (pre := wmw_close_pre summ1 summN st1) in *. clearbody pre.
+  destruct (wmw_close_log (wm_b_raw (wm_st_base pre))) as [Lc _].
+  exists (map wmw_to_wo (rev l) ++ [WoWrite 0 (wm_file_header_bytes (wm_fend (wm_b_raw (wm_st_base pre))))]).
+  unfold wmw_fin, wm_st_log. cbn [wm_st_base wm_st_set_base wm_b_raw wm_b_set_raw].
+  rewrite Lc, wmw_evs_cons. cbn [wmw_to_wo]. unfold wmw_evs. rewrite Hl, rev_app_distr, map_app, app_assoc. reflexivity.
+Qed.
+
 (* ================================================================ C03 layer 1, clean crash points *)
 Lemma wmw_accepted_prefix_inv : forall l, wo_check_log l = true ->
   forall k, exists s, wo_run false wo_st0 0 (firstn k l) = inl s /\ wo_inv s (wo_file_after (firstn k l)).
